@@ -100,6 +100,63 @@ Definition diag_case (c : string * option number) : string :=
 """
 
 
+SEG_PREAMBLE = """From DL Require Import Lib.Bytes Model.StringLit.
+Open Scope N_scope.
+Open Scope string_scope.
+Definition model_ok (c : string * string) : bool := bytes_eqb (segment_bytes (unhex (fst c))) (unhex (snd c)).
+Definition oracle_ok (c : string * string) : bool :=
+  match decode_segment (unhex (snd c)) with
+  | Some v => bytes_eqb v (unhex (fst c))
+  | None => false
+  end.
+Definition check_case (c : string * string) : bool := model_ok c && oracle_ok c.
+Definition diag_case (c : string * string) : string :=
+  ((if model_ok c then "model=ok" else "model=" ++ tohex (segment_bytes (unhex (fst c)))) ++
+   (if oracle_ok c then " oracle=ok" else " oracle=FAIL"))%string.
+"""
+
+
+def run_segments(ctx):
+    """literal parts of interpolated strings: write_interpolated_string_segment vs Model segment_bytes, the Coq
+    reference reader on the Rust output, and the segment inside the text of both generators"""
+    n = 600 if ctx.tier == "quick" else 8000
+    out = C.harness("dl-c13", ["segments", "--seed", str(ctx.seed), "--n", str(n)])
+    cases, seen, nontrivial, misplaced = [], set(), 0, []
+    for line in out.splitlines():
+        parts = line.split()
+        if len(parts) != 4 or parts[0] in seen:
+            continue
+        hin, hout, hdense, hreadable = parts
+        seen.add(hin)
+        cases.append((len(cases), '(%s, %s)' % (C.coq_string(hin), C.coq_string(hout)), hin, hout))
+        written = bytes.fromhex(hout)
+        if b"\\" in written:
+            nontrivial += 1
+        for name, text in (("dense", bytes.fromhex(hdense)), ("readable", bytes.fromhex(hreadable))):
+            if b"`" + written + b"{" not in text:
+                misplaced.append((name, hin, hout, text))
+    bad = C.run_coq_cases(ctx.prop, SEG_PREAMBLE, [(c[0], c[1]) for c in cases], chunk=600)
+    ctx.stream("interpolated string segments: model vs Rust, Coq reference reader on the Rust output, generators' text",
+               len(cases), nontrivial,
+               [{"input_hex": c[2], "written": bytes.fromhex(c[3]).decode("latin-1")} for c in cases[700:703]],
+               mismatches=len(bad) + len(misplaced))
+    model_mismatch = []
+    for cid, diag in bad:
+        _, _, hin, hout = cases[cid]
+        if "oracle=FAIL" in diag:
+            ctx.violation("written interpolated-string segment does not read back as the value (Coq reference reader)",
+                          {"input_hex": hin, "written_hex": hout, "written": bytes.fromhex(hout).decode("latin-1"),
+                           "diag": diag, "replay": "dl-c13 segments; write_interpolated_string_segment(StringSegment::from_value(bytes))"},
+                          key="segment:" + hin)
+        else:
+            model_mismatch.append((hin, hout, diag))
+    for name, hin, hout, text in misplaced[:2]:
+        ctx.violation("the %s generator does not write the segment as write_interpolated_string_segment does" % name,
+                      {"input_hex": hin, "segment_hex": hout, "generator_text": text.decode("latin-1")},
+                      key="segment-text:" + hin)
+    return model_mismatch
+
+
 def run_numbers(ctx):
     n = 600 if ctx.tier == "quick" else 20000
     out = C.harness("dl-c13", ["numbers", "--seed", str(ctx.seed), "--n", str(n)])
@@ -152,6 +209,7 @@ def run(ctx):
     C.build_harness("dl-c13")
     proofs_ok = C.proof_gate(ctx, ["Model/NumberLit.vo"])
     run_numbers(ctx)
+    segment_mismatch = run_segments(ctx)
 
     n = 1500 if ctx.tier == "quick" else 20000
     args = ["strings", "--seed", str(ctx.seed), "--n", str(n)]
@@ -203,6 +261,12 @@ def run(ctx):
                       "(theorems no longer apply to the code); every written literal still decodes correctly",
                       {"stream": "write_string model-vs-code", "input_hex": hin, "rust_written_hex": hout, "diag": diag,
                        "mismatches": len(model_mismatch)}, found_input=False)
+    if segment_mismatch and not ctx.violations:
+        hin, hout, diag = segment_mismatch[0]
+        ctx.violation("correspondence broken: Rust write_interpolated_string_segment differs from Model/StringLit.segment_bytes "
+                      "(theorems no longer apply to the code); every written segment still reads back correctly",
+                      {"stream": "segment model-vs-code", "input_hex": hin, "rust_written_hex": hout, "diag": diag,
+                       "mismatches": len(segment_mismatch)}, found_input=False)
     if not proofs_ok and not ctx.violations:
         failed = [n for n, ok, _ in ctx.obligations if not ok]
         ctx.violation("proof obligation no longer checks: " + "; ".join(failed),
